@@ -152,6 +152,10 @@ def analyse_map(cases, rep, cfg):
                     rep.violation(payload(c, kind='undefined-behaviour-on-admissible-input', op=[op, arg], impl=xi, model=xm, config=cfg)); bad = True; break
                 if xm == 'ub':
                     rep.broke(payload(c, correspondence='machine-layer model', why='model reports UB on an input its own predicate calls admissible (refinement theorem would be false here)', op=[op, arg])); bad = True; break
+            if (not c.adm) and xi == 'ub' and xm != 'ub' and F.prop_adm_stride(c):
+                # admissible by the letter of the property (and valid by the standard's precondition), outside the model's stricter Layout.admB:
+                # the model, which mirrors the unchanged code, executes no UB here - the implementation does
+                rep.violation(payload(c, kind='undefined-behaviour-on-admissible-input (valid only because an extent is zero)', op=[op, arg], impl=xi, model=xm, config=cfg)); bad = True; break
             if xi != xm and not bad:
                 rep.broke(payload(c, correspondence='map family, exact transcript incl. UB verdict', adm=c.adm, op=[op, arg], impl=xi, model=xm, config=cfg)); bad = True; break
         rep.cov['traces_validated_against_impl'] += 1
